@@ -116,6 +116,14 @@ def r02a(ctx):
         dp = [c for c in x.calls('alloc::vec::Vec::push') if c in lp[1] and is_data_of(x.arg(c, 1), elem)]
         okd = len(dp) == 1
         dsite = x.loc(dp[0]) if dp else '-'
+    if not okd and not in_main and elem is not None:
+        # one closure yields (record, data) pairs that are unzipped into the two lists
+        rets = [e_ for (_, _, _, e_) in x.ret_sites()]
+        if len(rets) == 1 and rets[0][0] == 'agg' and rets[0][1] == 'tuple':
+            parts = [v_ for (_, v_) in rets[0][3]]
+            if any(x.rooted_at(v_, r) for v_ in parts) and any(is_data_of(v_, elem) for v_ in parts):
+                okd = True
+                dsite = x.loc(r)
     if not okd:
         for y_ in bodies:
             if y_.path == FC or not mapped_over_param(y_):
@@ -225,13 +233,13 @@ def r02b(ctx):
     okn = len(ks) == 2 and ks[0][1] == 1 and ks[1][1] == -1 and isinstance(ks[0][0], tuple) and isinstance(ks[1][0], tuple) \
         and _path(ks[0][0])[1][-1:] == ('chunk_index_end',) and _path(ks[1][0])[1][-1:] == ('chunk_index_start',) and _strip_sites(_path(ks[0][0])[0]) == _strip_sites(_path(ks[1][0])[0])
     ctx.check(okn, 'R02b', x.path, 'range length', x.loc(c), 'the range has the segment\'s chunk count (chunk_index_end - chunk_index_start) as its length',
-              'the range of chunk hashes that is verified does not have the length chunk_index_end - chunk_index_start of the segment')
+              'cannot establish that the range of chunk hashes that is verified has the length chunk_index_end - chunk_index_start of the segment')
     sk = paths.expr_place_key(uncast(S))
     lps = [l for l in x.cfg.loops().items() if c in l[1]]
     ups = [u for u in updates(x, min(lps, key=lambda l: len(l[1]))[1] if lps else None) if u[0] == sk]
     if ctx.check(sk is not None and len(ups) == 1 and ups[0][1] == 1 and lin_eq(lin(ups[0][2]), n), 'R02b', x.path, 'cursor advance', x.loc(*ups[0][3]) if ups else x.loc(c),
                  'the range starts at a cursor that advances once per segment by exactly the range length',
-                 'the start of the verified range is not a cursor advanced once per segment by that segment\'s chunk count: segments are verified against the wrong chunks'):
+                 'cannot establish that the verified range starts at a cursor advanced once per segment by exactly that segment\'s chunk count (if it is not, segments are verified against the wrong chunks)'):
         rs = [r_ for r_ in reads(x, sk) if r_ != ups[0][3]]
         bad = [r_ for r_ in rs if not precedes(x, r_, ups[0][3])]
         ctx.check(bool(rs) and not bad, 'R02b', x.path, 'cursor before advance', x.loc(*ups[0][3]), 'the cursor is read before it advances past the segment')
